@@ -119,19 +119,38 @@ func vh_roundrobin() {
 		mono = mono && vTier(kind, seq[i-1]) <= vTier(kind, seq[i])
 	}
 	vAssert(mono, "C11/rr/nearer-tiers-first")
-	// successive picks rotate the start within the nearest tier (all hosts of that tier up)
-	var tier0 []*HostInfo
-	allUp := true
-	for _, x := range hosts {
-		if vTier(kind, x) == 0 {
-			tier0 = append(tier0, x)
-			allUp = allUp && x.state == NodeUp
+	// successive picks rotate the start within every tier (checked for the tiers whose hosts are all up,
+	// where the first host offered of the tier is the tier's start)
+	var seq2 []*HostInfo
+	for t := 0; t <= 2; t++ {
+		var tier []*HostInfo
+		allUp := true
+		for _, x := range hosts {
+			if vTier(kind, x) == t {
+				tier = append(tier, x)
+				allUp = allUp && x.state == NodeUp
+			}
 		}
-	}
-	if len(tier0) > 0 && allUp && len(seq) > 0 {
-		seq2 := vDrain(p.Pick(nil), h, "C11/rr")
-		i1, i2 := vIndexOf(tier0, seq[0]), vIndexOf(tier0, seq2[0])
-		vAssert(i1 >= 0 && i2 == (i1+1)%len(tier0), "C11/rr/successive-picks-rotate-the-start")
+		if len(tier) == 0 || !allUp || len(seq) == 0 {
+			continue
+		}
+		if seq2 == nil {
+			seq2 = vDrain(p.Pick(nil), h, "C11/rr")
+		}
+		i1, i2 := -1, -1
+		for _, x := range seq {
+			if vTier(kind, x) == t {
+				i1 = vIndexOf(tier, x)
+				break
+			}
+		}
+		for _, x := range seq2 {
+			if vTier(kind, x) == t {
+				i2 = vIndexOf(tier, x)
+				break
+			}
+		}
+		vAssert(i1 >= 0 && i2 == (i1+1)%len(tier), "C11/rr/successive-picks-rotate-the-start")
 	}
 	vObserve("n", len(seq))
 }
